@@ -538,8 +538,27 @@ static Function *find_module_function(Environment *env, const char *module_name,
     return NULL;
 }
 
-/* Load and parse a module file */
+/* Load and parse a module file (wrapper with import-depth tracking, like check_expression in the type checker).
+ * Loading recurses once per module on an import chain (load_module_internal -> process_imports -> load_module_internal);
+ * without a limit a chain of a few thousand files overflows the stack. */
+#define MAX_IMPORT_DEPTH 1000
+static int g_import_depth = 0;
+static ASTNode *load_module_internal_impl(const char *module_path, Environment *env, bool use_cache, ModuleList *modules_to_track);
+
 static ASTNode *load_module_internal(const char *module_path, Environment *env, bool use_cache, ModuleList *modules_to_track) {
+    if (g_import_depth >= MAX_IMPORT_DEPTH) {
+        fprintf(stderr, "Error: Imports nested too deeply at module '%s' (more than %d modules on one import chain)\n",
+                module_path ? module_path : "?", MAX_IMPORT_DEPTH);
+        return NULL;
+    }
+    g_import_depth++;
+    ASTNode *result = load_module_internal_impl(module_path, env, use_cache, modules_to_track);
+    g_import_depth--;
+    return result;
+}
+
+/* Internal implementation - do not call directly */
+static ASTNode *load_module_internal_impl(const char *module_path, Environment *env, bool use_cache, ModuleList *modules_to_track) {
     if (!module_path) return NULL;
     
     /* Check if module is already loaded (only if using cache) */
